@@ -3,7 +3,7 @@
 
 The differential run can only expose a deviation of the implementation on inputs the generators produce.  This tool
 asks the converse question mechanically: for every small semantic change of the extracted executable model
-(one comparison / connective flipped at one site: < <-> <=, = -> <, && <-> ||, negb dropped), is there a generated
+(one comparison / connective flipped at one site: < <-> <=, = -> <=, && <-> ||, negb dropped; one numeric literal off by one), is there a generated
 case on which the changed model behaves differently from the model?  A change no case distinguishes is either
 behaviour-preserving or marks an input class the generators do not reach -- the same blind spot a change of the
 implementation at the corresponding place would slip through.
@@ -35,6 +35,11 @@ OPS = [
     (r'\(&&\)', '(||)', '&&->||'),
     (r'\(\|\|\)', '(&&)', '||->&&'),
     (r'\bnegb\b', '(fun b__ -> b__)', 'negb dropped'),
+    # constants: lowest bit of a binary N literal flipped (value +-1), one successor dropped from a nat literal
+    (r'Npos \(XO\b', 'Npos (XI', 'N literal +1'),
+    (r'Npos \(XI\b', 'Npos (XO', 'N literal -1'),
+    (r'\(S \(S O\)\)', '(S O)', 'nat literal 2 -> 1'),
+    (r'\(S O\)', 'O', 'nat literal 1 -> 0'),
 ]
 
 
